@@ -98,14 +98,18 @@ func (st *SimpleTableServicer) GetRowsByID(srv GRIPSource_GetRowsByIDServer) err
 			break
 		}
 		log.Printf("Request: %s %s", err, req)
+		// Every request gets exactly one answer: the client pairs answers with
+		// requests (ChannelMux waits for one output per input). A row that cannot
+		// be found is reported as a Row without data.
 		if dr, ok := st.drivers[req.Collection]; ok {
 			if row, err := dr.FetchRow(req.Id); err == nil {
-				data, _ := structpb.NewStruct(row.Value)
-				srv.Send(&Row{Id: row.Key, Data: data, RequestID: req.RequestID})
+				if data, err := structpb.NewStruct(row.Value); err == nil {
+					srv.Send(&Row{Id: row.Key, Data: data, RequestID: req.RequestID})
+					continue
+				}
 			}
-		} else {
-			//do something here
 		}
+		srv.Send(&Row{Id: req.Id, RequestID: req.RequestID})
 	}
 	return nil
 }
